@@ -209,6 +209,9 @@ def duplicate(case):
         return secs, "table form and custom formula both called %r" % name
     if op == "table_named_like_builtin":
         name = "as." + pick(sorted(gen.BUILTIN + ["buck4"]))
+        if case["site"] % 3 == 0:
+            # the pymath.* functions offered to formulas are built-in names as well
+            name = "pymath." + pick(["ceil", "floor", "fabs", "factorial", "sqrt"])
         secs.append(["Table-Form:" + name, [["x", "0 1 2 3 4"], ["y", "7.25 1 2 3 4"]]])
         return secs, "table form called like the built-in %r" % name
     return None
